@@ -79,6 +79,7 @@ _CLIENT_STATE_TRUSTED = [
 
 PROPS = dict(
     C19=dict(
+        level='exploration',
         verus=[], kani=[], native=['rumqttd'],
         scope='handle_auth (static credentials / external callback / none x logins: exhaustive); Router::handle_new_connection: client-id metacharacters refused, at most one live connection per client id (newest replaces), connection limit respected (bounded exploration of the real Router)',
         residual='mqtt_connect (first packet must be CONNECT of the listener protocol, non-zero keep-alive, empty client id only with clean session) reads from an async Network and is NOT covered; broker.rs listener code',
@@ -100,6 +101,7 @@ PROPS = dict(
         assumptions=['BOUNDED stand-in at router level: Kani cannot compile a harness in which Router::new is reachable (compiler ICE, measured) and the handler bodies are outside the Verus subset'],
     ),
     C15=dict(
+        level='exploration',
         verus=[], kani=[], native=['rumqttd'],
         scope='retained-message rules explored natively on the real Router: latest per topic to a NEW non-shared subscription (flagged retained), cleared by empty payload, live copies not flagged, no replay on repeated or shared subscription',
         residual='message-expiry of retained messages (Instant), delivery-window truncation with more than 100 retained messages, retain_forward_rule options',
@@ -107,6 +109,7 @@ PROPS = dict(
         assumptions=['BOUNDED stand-in at router level: Kani cannot compile a harness in which Router::new is reachable (compiler ICE, measured) and the handler bodies are outside the Verus subset'],
     ),
     C17=dict(
+        level='exploration',
         verus=[], kani=[], native=['rumqttd'],
         scope='shared subscriptions explored natively on the real Router: each message to at most one member, never to a non-member, never twice, per-member order, everything forwarded when the group stays non-empty and members acknowledge promptly; 3 strategies',
         residual='the known parked-member stall (a member that does not consume) and arbitrary join/leave interleavings beyond one leave are outside the explored space',
@@ -121,6 +124,7 @@ PROPS = dict(
         assumptions=['packet-level part is a BOUNDED stand-in (CBMC on BytesMut/String/Vec-based packet codecs is out of reach in reasonable time)'],
     ),
     C20=dict(
+        level='exploration',
         verus=[], kani=[], native=['rumqttd'],
         scope='V4::write / V5::write on every notification shape the router can emit (From<Notification>/From<Ack> image): no error, no panic; PUBLISH towards 3.1.1 keeps topic/payload/qos/id and drops properties (decoded by the client library), towards MQTT 5 keeps properties; client<->broker interoperation',
         residual='that forward_device_data passes stored properties through unchanged and RemoteLink uses the link protocol (Router-coupled / async)',
@@ -135,6 +139,7 @@ PROPS = dict(
         assumptions=['whole-decoder part is a BOUNDED stand-in (CBMC on BytesMut-based packet parsers is out of reach in reasonable time): all byte strings <= 2 bytes (3 thorough) plus structured strings up to 6 (7) bytes'],
     ),
     C03=dict(
+        level='exploration',
         verus=['tracker'], kani=[], native=['rumqttd'],
         scope='Router::events / handle_device_payload / handle_disconnection / consume driven natively on the real Router over every short history of router-level actions (bounded stand-in); matches() on arbitrary Unicode (C12 unit); Tracker::try_ready debug_assert guards (Verus)',
         residual='histories longer than the bound; link threads and tokio tasks (broker.rs, remote.rs) are not part of the harness',
@@ -162,6 +167,7 @@ PROPS = dict(
         assumptions=['incoming QoS 2 id table bounded to 8 bits in the inbound harnesses (real table: 65536 bits); ack ids full u16'],
     ),
     C11=dict(
+        level='exploration',
         verus=[], kani=[], native=['rumqttc'],
         scope='rumqttc v4 MqttState::clean: order and content of the returned requests for all well-formed states (bounded table), and the history lemma: after any publish / ack-oldest script clean() returns the unacknowledged publishes in send order, wrap-around included',
         residual='EventLoop::clean ordering (state first, channel second, PubAcks dropped), next_request preferring `pending`, pending.clear() on !session_present are async code: unverified composition',
@@ -182,6 +188,7 @@ PROPS = dict(
         assumptions=['stand-in declarations for parking_lot::Mutex, flume::Sender, Notification, DataRequest (held, never touched by the verified functions)'],
     ),
     C12=dict(
+        level='exploration',
         verus=[], kani=[], native=['rumqttc', 'rumqttd'],
         scope='matches / valid_filter / valid_topic / has_wildcards in rumqttc/src/mqttbytes/topic.rs, rumqttc/src/v5/mqttbytes/mod.rs, rumqttd/src/protocol/mod.rs',
         residual='strings longer than the bound; characters outside the enumerated alphabet (the functions only compare bytes with / + # $ and levels with each other)',
